@@ -5,6 +5,7 @@ Unit description format (`contracts/<unit>.vu`), line oriented:
   @@ text                      raw Verus text follows (prelude, stubs, lemmas, canaries)
   @@ extract <file> :: <anchor>      slice one item (fn / struct / enum / trait / impl / macro_rules!)
      @ rules T2                optional extra rules (T1 always applies)
+     @ derives A B             T1: keep only these derives (default: Clone PartialEq Eq Hash Debug Default)
      @ props C05 C14           which properties own the obligations of the functions below
      @ methods a b c           T6: keep only these methods of an impl / trait (others omitted, listed)
      @ fn <name>               following annotations apply to that method of the impl/trait
@@ -14,6 +15,7 @@ Unit description format (`contracts/<unit>.vu`), line oriented:
      @ foriter <n> <name>      T5: name the iterator of the n-th loop (`for x in it: expr`)
      @ closure <exact text>    T5b: indented lines are inserted between `|params|` and the body,
                                and the body is wrapped in `{ }`
+     @ ghost-items             T7: indented lines (spec/proof fns only) are inserted at the top of an impl body
      @ proof <marker-line-regex>   insert indented lines (a `proof { }` block / assert) *before* the
                                first body line matching the regex (ghost code only; checked to
                                start with `proof {` or `assert`)
@@ -59,6 +61,8 @@ class Extract:
         self.fns = {}   # name -> FnAnn
         self.which = 0
         self.no_attrs = False
+        self.keep_derives = None
+        self.ghost_items = []
 
 
 class Block:
@@ -70,7 +74,7 @@ class Block:
         self.gen = None
 
 
-def parse_unit(path):
+def parse_unit(path, _depth=0):
     blocks = []
     cur = None
     ext = None
@@ -89,6 +93,17 @@ def parse_unit(path):
                 continue
             if toks.startswith('props'):
                 meta['props'] = toks.split()[1:]
+                continue
+            if toks.startswith('include'):
+                inc = os.path.join(os.path.dirname(path), toks.split()[1])
+                if _depth > 4:
+                    raise UnitError('include too deep')
+                _m, inc_blocks = parse_unit(inc, _depth + 1)
+                for ib in inc_blocks:
+                    ib.src_file = getattr(ib, 'src_file', None) or os.path.basename(inc)
+                blocks.extend(inc_blocks)
+                cur = None
+                ext = None
                 continue
             if toks.startswith('text'):
                 cur = Block('text', ln)
@@ -141,6 +156,10 @@ def parse_unit(path):
                 ext.methods = rest.split()
             elif key == 'which':
                 ext.which = int(rest)
+            elif key == 'derives':
+                ext.keep_derives = tuple(rest.split())
+            elif key == 'ghost-items':
+                sink = ext.ghost_items
             elif key == 'noattrs':
                 ext.no_attrs = True
             elif key == 'fn':
@@ -330,7 +349,14 @@ def _only_attrs_and_docs(ds):
 
 def build_item(repo, ext, unit_path):
     """returns (text, origin list per char (source offset or None), info dict)"""
-    path = os.path.join(repo, ext.relpath)
+    if ext.relpath.startswith('dep:'):
+        import glob
+        cands = sorted(glob.glob(os.path.expanduser('~/.cargo/registry/src/*/' + ext.relpath[4:])))
+        if not cands:
+            raise AnchorLost('dependency source missing: ' + ext.relpath)
+        path = cands[0]
+    else:
+        path = os.path.join(repo, ext.relpath)
     if not os.path.exists(path):
         raise AnchorLost('file missing: ' + ext.relpath)
     with open(path) as f:
@@ -342,7 +368,7 @@ def build_item(repo, ext, unit_path):
     text = srctext[s:e]
     origin = list(range(s, e))
     rules = list(ext.rules)
-    text, origin = apply_edits(text, origin, edits_t1(text))
+    text, origin = apply_edits(text, origin, edits_t1(text) if ext.keep_derives is None else edits_t1(text, ext.keep_derives))
     if 'T2' in rules:
         text, origin = apply_edits(text, origin, edits_t2(text))
     base_text = text           # what the source says after T1/T2
@@ -389,6 +415,12 @@ def build_item(repo, ext, unit_path):
             for nm in ext.methods:
                 if nm not in fn_spans:
                     raise AnchorLost('method %s not found in %s' % (nm, ext.anchor))
+        if ext.ghost_items:
+            first = ext.ghost_items[0][1].strip()
+            if not re.match(r'(pub\s+)?(open\s+|closed\s+|uninterp\s+)?(spec|proof)\s+fn\b', first):
+                raise UnitError('T7 may only insert spec/proof items')
+            gi = '\n' + '\n'.join('    ' + l.rstrip() for _, l in ext.ghost_items) + '\n'
+            edits.append((bo + 1, bo + 1, gi))
         scopes = [(ext.fns[nm], fn_spans[nm]) for nm in ext.fns if nm in fn_spans]
         for nm in ext.fns:
             if nm not in fn_spans:
@@ -402,6 +434,8 @@ def build_item(repo, ext, unit_path):
     else:
         scopes = []
     inserted = []
+    if is_container and ext.ghost_items:
+        inserted.append(('T7', None, [l.strip() for _, l in ext.ghost_items]))
     for ann, (ks, fs, fe, parts) in scopes:
         ind = _indent_of(text, fs)
         # T3
@@ -545,7 +579,7 @@ def generate(repo, unit_path, generators=None):
         if b.kind == 'text':
             for ln, line in b.lines:
                 g.lines.append(line)
-                g.origin.append({'kind': 'unit', 'unit_line': ln})
+                g.origin.append({'kind': 'unit', 'unit_line': ln, 'unit_file': getattr(b, 'src_file', None)})
         elif b.kind == 'generate':
             name = b.gen[0]
             if not generators or name not in generators:
